@@ -181,8 +181,9 @@ class AbsEval(PyEval):
         m = mod or (owner.mod if owner is not None else self.mod)
         ev = self.sub(m, dict(closure_env) if closure_env else {}, Frame(owner, self_obj))
         for d in fn.decorator_list:
-            dn = d.id if isinstance(d, ast.Name) else getattr(d, "attr", "")
-            if dn not in ("staticmethod", "classmethod", "contextmanager", "property", "lru_cache", "cache", "perf_trace"):
+            dd = d.func if isinstance(d, ast.Call) else d
+            dn = dd.id if isinstance(dd, ast.Name) else getattr(dd, "attr", "")
+            if dn not in ("staticmethod", "classmethod", "contextmanager", "property", "lru_cache", "cache", "perf_trace") and dn not in self.shared.get("decorators_ok", ()):
                 raise Unknown(f"decorator @{dn} on {fn.name}")
         return self._run_function(fn, ev, args, kwargs)
 
@@ -642,7 +643,7 @@ class AbsEval(PyEval):
             return out
         if isinstance(v, Obj):
             raise Unknown(f"iteration over object {v.cls.name}")
-        if isinstance(v, type(reversed([]))):
+        if isinstance(v, (type(reversed([])), type({}.items()), type({}.keys()), type({}.values()), type(iter([])), zip, enumerate, map)):
             return list(v)
         return super()._iter(v)
 
